@@ -11,7 +11,7 @@ package presence_test
 //
 // Clauses of the statement and where they are decided:
 //   (1) stale authority => ErrNotLeader and no state change:
-//       c33World.applyStale (error class, Snapshot DeepEqual before/after,
+//       c33World.staleGuard (error class, Snapshot DeepEqual before/after,
 //       full lookup state still equal to the untouched model).
 //   (2) unregistered connection never reappears at/below its unregister seq:
 //       c33World.tomb (a tracker independent of the model) checked against
@@ -672,9 +672,9 @@ func c33RoutesStr(rs []presence.Route) []string {
 	return out
 }
 
-// applyStale runs op (which must carry a target the model considers stale or
-// a non-fence variant) on both directories and decides clause (1).
-// It returns true when the operation was rejected by both directories.
+// staleGuard runs an operation whose target the model considers stale on both
+// directories and decides clause (1): ErrNotLeader, Snapshot unchanged, and
+// the full lookup state still equal to the untouched model.
 func (w *c33World) staleGuard(kind, label string, t presence.RouteTarget, call func(d *presence.Directory) error) {
 	before := w.snapshots()
 	nonEmpty := w.modelActive() > 0
@@ -703,8 +703,8 @@ func (w *c33World) staleGuard(kind, label string, t presence.RouteTarget, call f
 	w.checkState("stale-" + kind)
 }
 
-// nonFenceRejected handles a RouteRevision/AuthorityEpoch-only variant that the
-// implementation chose to reject: allowed, but then nothing may change.
+// errBoth runs a valid-target operation on both directories; the two error
+// classes must agree (same history => same outcome).
 func (w *c33World) errBoth(call func(d *presence.Directory) error) ([2]error, bool) {
 	var errs [2]error
 	for di, d := range w.dirs {
@@ -904,6 +904,8 @@ func (w *c33World) opRegister() {
 	w.checkState("register")
 }
 
+// nonFence handles ErrNotLeader for a target whose authority identity equals
+// the installed one.
 func (w *c33World) nonFence(kind, label string, t presence.RouteTarget) {
 	// A target equal to the installed authority identity was rejected. For
 	// the exact installed target that makes the directory unusable; for
@@ -1315,7 +1317,7 @@ func TestVerifC33(t *testing.T) {
 	defer r.Finish()
 	r.SetRule("Each case is one PRNG history of 50 (thorough 90) operations — become/lose authority (fresh identity, revision-only, older term), register (fresh, conflicting, tombstone replays), commit/abort (live and bogus tokens), unregister, touch batches (refresh, delayed, recreate, tombstone replays), expire on a logical clock, grouped lookups — each addressed with the current target (68%) or a stale variant (one fence field off, previous incarnation, uninstalled hash slot) — applied to two directories with different shard counts and to a reference model; full state compared after every operation. Non-trivial = history in which a stale-target operation was rejected while routes were active AND at least one of: a tombstone fenced a register/touch, an expiry removed a proper non-empty subset, a pending route was committed. Distinct = op/outcome shape string of the history.")
 	r.Assume("OwnerSeq >= 1 (0 is 'unset' in production); route activity times are non-zero; tombstone clause is scoped to one authority incarnation (BecomeAuthority with a new identity and LoseAuthority clear the slot by documented design); RouteRevision/AuthorityEpoch are not fences")
-	nHist := r.N(6000, 70000)
+	nHist := r.N(6000, 150000)
 	nOps := r.N(50, 90)
 	for i := 0; i < nHist; i++ {
 		if r.Skip(i) {
